@@ -550,7 +550,31 @@ func (g *G) debugInfo() {
 		d.fill(n, nil)
 		misc = append(misc, ref(n))
 	}
+	// a named metadata node whose operands are debug-info nodes of any kind, referenced by number: among them a
+	// numbered DIExpression (LLVM itself prints that operand inline, so only the library's own reading of its
+	// output shows whether the reference survived)
+	var diRefs *am.NamedMD
+	if !g.off("di-named-refs") && g.chance("dinamedrefs", 1, 2) {
+		diRefs = &am.NamedMD{Name: "verif.di.nodes"}
+		if len(d.numExprs) == 0 && !g.off("di-numbered-expr") {
+			e := d.exprNoFragment()
+			e.ID = d.next
+			d.next++
+			d.nodes = append(d.nodes, e)
+			d.numExprs = append(d.numExprs, e)
+		}
+		if len(d.numExprs) > 0 {
+			diRefs.Nodes = append(diRefs.Nodes, ref(d.numExprs[g.intn("dinamedexpr", len(d.numExprs))]))
+			g.feat("di/numbered-expression-in-named-metadata")
+		}
+		for k := g.rng("ndinamedrefs", 0, 3); k > 0; k-- {
+			diRefs.Nodes = append(diRefs.Nodes, ref(d.nodes[g.intn("dinamedref", len(d.nodes))]))
+		}
+	}
 	m.MDs = append(m.MDs, d.nodes...)
+	if diRefs != nil {
+		m.NamedMDs = append(m.NamedMDs, diRefs)
+	}
 	m.NamedMDs = append(m.NamedMDs, &am.NamedMD{Name: "llvm.dbg.cu", Nodes: []*am.MDField{ref(cu)}})
 	flag := &am.MDNode{ID: d.next}
 	d.next++
